@@ -510,6 +510,39 @@ def check(run):
     ncast = engines.address_casts_guarded(run, [g_ for g_ in fx.repo_functions() if g_.file.endswith('socks_server.cpp')])
     if ncast < 3:
         run.broke('fewer than 3 address family casts in socks_server.cpp (%d)' % ncast)
+    run.clause('a negotiation step entered directly (the bytes it would read are here already) is entered as a SUCCESSFUL completion: called with error_code() and a byte count, the step does not take its failure exit for those very arguments')
+    ndirect = 0
+    for fn_ in fx.repo_functions():
+        if q.top_function(fx, fn_).cls != C:
+            continue
+        for c in fn_.calls():
+            tg = [g_ for g_ in (fx.by_usr(c.get('usr')) if c.get('usr') else []) if g_.cls == C and g_.cfg is not None]
+            if not tg or len(c.get('args', [])) != 2 or len(tg[0].params) != 2:
+                continue
+            a0, a1 = q.strip_casts(c['args'][0]), q.strip_casts(c['args'][1])
+            while is_node(a0) and a0['k'] == 'construct' and len(a0.get('args', [])) == 1:
+                a0 = q.strip_casts(a0['args'][0])
+            nbytes = q.const_eval(fn_, a1, lambda t: None)
+            if not (is_node(a0) and a0['k'] == 'construct' and not a0.get('args') and 'error_code' in (a0.get('cls') or q.render(fn_, a0)) and isinstance(nbytes, int) and not isinstance(nbytes, bool)):
+                continue
+            import inline as _inl
+            g = _inl.inlined_func(fx, tg[0])
+            ndirect += 1
+            run.touch(g)
+            pe, pb = g.params[0].get('name'), g.params[1].get('name')
+            def leaf(atom, g=g, pe=pe, pb=pb, nbytes=nbytes):
+                t_ = q.render(g, q.strip_casts(atom)).replace('this->', '')
+                if t_ == pe:
+                    return False
+                v_ = q.const_eval(g, atom, lambda t: nbytes if t == pb else (False if t == pe else None))
+                return v_ if isinstance(v_, bool) else None
+            exits = [x for x in g.calls() if q.callee_name(x) == C + '::close_connection']
+            bad = [x for x in exits if q.reachable_under(g, None, [x], leaf, decided_only=True)]      # reached on the strength of the arguments alone
+            run.check(not bad, 'R4', 'direct-step-is-a-success', '%s -> %s(error_code(), %d)' % (q.top_function(fx, fn_).norm.split('::')[-1], g.norm.split('::')[-1], nbytes), fn_.loc(c),
+                      '%s is entered directly with (no error, %d bytes) and takes its failure exit for exactly those arguments%s: the request whose remaining bytes were already read - a SOCKS5 CONNECT naming a 3-character host - is closed without a reply'
+                      % (g.norm.split('::')[-1], nbytes, ''), 'the failure exit is unreachable for the arguments passed')
+    if ndirect < 1:
+        run.broke('socks_connection: no negotiation step entered directly with (error_code(), n) found (on_request1 -> on_request_domain_name confirmed by hand)')
     run.clause('no read of zero bytes: a field whose length comes from the client (number of methods, host-name length minus what was read already) is read only when something is left to read - the simulated socket parks an empty read until the next packet, and the client that sent a complete request waits forever for its reply')
     nz = engines.reads_never_empty(run, [g_ for g_ in fx.repo_functions() if q.top_function(fx, g_).cls == C], rule='R4')
     if nz < 2:
